@@ -66,7 +66,7 @@ CHUNK_TIMEOUT_S = {'quick': 240, 'thorough': 3000}
 
 def plan(tier, seed):
   if tier == 'quick':
-    chunks, per = 16, 96
+    chunks, per = 32, 160
   else:
     chunks, per = 64, 1570
   specs = [{'mode': 'selftest'}, {'mode': 'directed'}]
